@@ -127,6 +127,7 @@ CURATED = [
                            ["f", arr(["struct", "entry", [["x", U32, None], ["y", U16, None]], "tag"], 3), None], ["t", U8, None]]),
     ("bits-enum-then-block", [["a", E16, 4], ["b", E16, 12], ["c", U32, None], ["d", F8, 3], ["e", F8, 5], ["f", U16, None]]),
     ("big-count", [["n", U8, None], ["d", arr(U16, ["expr", ["bin", "*", ["bin", "&", ["id", "n"], ["num", 1]], ["num", 300]]]), None], ["t", U8, None]]),
+    ("big-count-even", [["n", U16, None], ["d", arr(U16, ["expr", ["bin", "*", ["bin", "&", ["id", "n"], ["num", 1]], ["num", 300]]]), None]]),
     ("big-count-int", [["n", U8, None], ["d", arr(I24, ["expr", ["bin", "*", ["bin", "&", ["id", "n"], ["num", 1]], ["num", 300]]]), None]]),
     ("bits-switch-then-block", [["a", U16, 4], ["b", U8, 4], ["c", U8, 4], ["d", U32, None]]),
     ("bits-exhaust-then-block", [["a", U8, 4], ["b", U8, 4], ["c", U8, 4], ["d", U16, None], ["e", U8, 8], ["f", U8, 1], ["g", U64, None]]),
